@@ -315,7 +315,11 @@ Lemma prelude_inv c source n :
   let c1 := fst (prelude c source n) in let dictEnd := snd (prelude c source n) in
   table_inv c1 /\ s_cur c1 + n <= 2147483648 /\ s_dictSize c1 <= s_cur c1 /\ s_dctx c1 = s_dctx c /\
   (s_dictSize c1 <> 0 -> s_dict c1 + s_dictSize c1 = dictEnd) /\
-  (s_dctx c1 <> None -> dictEnd = 0).
+  (s_dctx c1 <> None -> dictEnd = 0) /\
+  (0 < source -> dictEnd = source -> s_dict c1 + s_dictSize c1 = source) /\
+  (* the designated region only shrinks, to a suffix, and the new block never ends strictly inside it *)
+  s_dictSize c1 <= s_dictSize c /\
+  (s_dictSize c1 <> 0 -> dictEnd = s_dict c + s_dictSize c /\ (source + n <= s_dict c1 \/ dictEnd <= source + n)).
 Proof.
   intros T R Hn Hs. pose proof (renorm_inv c n T R Hn) as P. cbv zeta in P.
   destruct P as (T1 & R1 & Q1 & X1 & S1 & L1 & _).
@@ -336,7 +340,10 @@ Proof.
   assert (B : table_inv (fst cd) /\ s_cur (fst cd) = s_cur c0 /\ s_dictSize (fst cd) <= s_cur c0 /\ s_dctx (fst cd) = s_dctx c0 /\
               (s_dictSize (fst cd) <> 0 -> s_dict (fst cd) + s_dictSize (fst cd) = snd cd) /\
               (s_dctx c0 <> None -> s_dictSize (fst cd) = 0 /\ snd cd = 0) /\
-              (s_dictSize (fst cd) = 0 -> snd cd <= s_dict (fst cd) \/ snd cd = 0)).
+              (s_dictSize (fst cd) = 0 -> snd cd <= s_dict (fst cd) \/ snd cd = 0) /\
+              (0 < source -> snd cd = source -> s_dict (fst cd) + s_dictSize (fst cd) = source) /\
+              s_dictSize (fst cd) <= s_dictSize c /\
+              (s_dictSize (fst cd) <> 0 -> snd cd = s_dict c + s_dictSize c)).
   { unfold cd.
     destruct ((s_dictSize c0 <? 4) && negb (dictEnd0 =? source) && (n >? 0)
               && match s_dctx c0 with None => true | Some _ => false end) eqn:E; cbn [fst snd].
@@ -344,13 +351,16 @@ Proof.
       unfold with_dict. cbn [s_cur s_dctx s_dictSize s_dict].
       split; [reflexivity|]. split; [lia|]. split; [reflexivity|]. split; [lia|]. split.
       + intros Hd. destruct (s_dctx c0); [|congruence]. rewrite andb_false_r in E. discriminate.
-      + intros _. left. lia.
+      + split; [intros _; left; lia|]. split; [intros _ _; lia|]. split; [destruct T as ((_ & ? & _) & _); lia | intros; lia].
     - split; [exact T1|]. split; [reflexivity|]. split; [lia|]. split; [reflexivity|]. split; [exact A0|]. split; [exact Z0|].
-      intros Hz. right. unfold dictEnd0. destruct (s_dictSize c =? 0) eqn:E2; [reflexivity|].
-      exfalso. unfold c0, renormDictT in Hz. unfold KB64 in *.
-      destruct (u32 (s_cur c + n) >? 2147483648); cbn [s_dictSize] in Hz; [|lia].
-      destruct T as ((_ & ? & _) & _). cbn [to_f f_dictSize] in *. destruct (s_dictSize c >? 65536) eqn:E3; lia. }
-  destruct B as (B1 & B2 & B2' & B3 & B4 & B5 & B6).
+      split.
+      { intros Hz. right. unfold dictEnd0. destruct (s_dictSize c =? 0) eqn:E2; [reflexivity|].
+        exfalso. unfold c0, renormDictT in Hz. unfold KB64 in *.
+        destruct (u32 (s_cur c + n) >? 2147483648); cbn [s_dictSize] in Hz; [|lia].
+        destruct T as ((_ & ? & _) & _). cbn [to_f f_dictSize] in *. destruct (s_dictSize c >? 65536) eqn:E3; lia. }
+      split; [intros Hsp He; unfold dictEnd0 in He; destruct (s_dictSize c =? 0) eqn:E2; lia|].
+      split; [lia|]. intros Hnz. unfold dictEnd0. destruct (s_dictSize c =? 0) eqn:E2; [lia | reflexivity]. }
+  destruct B as (B1 & B2 & B2' & B3 & B4 & B5 & B6 & B7 & B8 & B9).
   set (c1 := fst cd) in *. set (dictEnd := snd cd) in *.
   assert (P1 : 0 <= s_dictSize c1 <= s_cur c1).
   { destruct B1 as ((? & ? & _) & _). cbn [to_f f_cur f_dictSize] in *. lia. }
@@ -361,7 +371,7 @@ Proof.
     set (ds2 := if ds1 <? 4 then 0 else ds1).
     assert (Hnz : s_dictSize c1 <> 0).
     { intros Hz. destruct (B6 Hz); lia. }
-    assert (Hd2 : 0 <= ds2 <= s_dictSize c1).
+    assert (Hd2 : 0 <= ds2 <= s_dictSize c1 /\ ds2 <= dictEnd - (source + n)).
     { specialize (B4 Hnz). unfold ds2, ds1, ds0, KB64.
       destruct (dictEnd - (source + n) >? 65536) eqn:E1;
         [destruct (65536 <? 4) eqn:E2 | destruct (dictEnd - (source + n) <? 4) eqn:E2]; lia. }
@@ -369,9 +379,11 @@ Proof.
     + apply table_inv_with_dict; [exact B1 | lia|].
       intros Hd. rewrite B3 in Hd. destruct (B5 Hd) as [? ?]. lia.
     + unfold with_dict. cbn [s_cur s_dctx s_dictSize s_dict]. rewrite B2, B3. split; [lia|]. split; [lia|]. split; [exact X1|].
-      split; [lia|]. intros Hd. apply (B5 Hd).
+      split; [lia|]. split; [intros Hd; apply (B5 Hd)|]. split; [intros; lia|]. split; [lia|].
+      intros Hn2. split; [apply B9; exact Hnz | left; lia].
   - split; [exact B1|]. rewrite B2, B3. split; [lia|]. split; [lia|]. split; [exact X1|]. split; [exact B4|].
-    intros Hd. apply (B5 Hd).
+    split; [intros Hd; apply (B5 Hd)|]. split; [exact B7|]. split; [exact B8|].
+    intros Hn2. split; [apply B9; exact Hn2|]. specialize (B4 Hn2). lia.
 Qed.
 
 Lemma renorm_tt c n : tt_inv c -> tt_inv (renormDictT c n).
@@ -428,13 +440,14 @@ Lemma continue_call_ok c dictEnd source n :
   table_inv c -> s_dictSize c <= s_cur c -> (s_dctx c <> None -> dictEnd = 0) -> 0 < source -> 0 <= n <= LZ4_MAX_INPUT_SIZE -> s_cur c + n <= 2147483648 ->
   let '(cc, dd, small) := continue_call c dictEnd source n in
   call_ok cc dd small /\ 0 <= s_cur cc /\ 0 <= s_dictSize cc <= s_cur cc /\ s_cur cc + n <= 2147483648 /\
-  table_inv cc /\ (dd = CUsingDictCtx \/ s_dctx cc = None \/ n = 0 /\ cc = c) /\ dd <> CNoDict /\ (n <= 4096 -> cc = c).
+  table_inv cc /\ (dd = CUsingDictCtx \/ s_dctx cc = None \/ n = 0 /\ cc = c) /\ dd <> CNoDict /\ (n <= 4096 -> cc = c) /\
+  ((dictEnd =? source) = true -> cc = c /\ dd = CWithPrefix64k).
 Proof.
   intros T D1 Hz Hs Hn R. pose proof T as ((C1 & C2 & C3 & C4) & D2). unfold LZ4_MAX_INPUT_SIZE in Hn.
   cbn [to_f f_cur f_dictSize f_tab] in *. unfold continue_call.
   destruct (dictEnd =? source) eqn:E.
   - split; [apply call_ok_own; [left; reflexivity | destruct T as (T & _); exact T | exact D1]|].
-    split; [lia|]. split; [lia|]. split; [lia|]. split; [exact T|]. split; [|split; [discriminate | reflexivity]].
+    split; [lia|]. split; [lia|]. split; [lia|]. split; [exact T|]. split; [|split; [discriminate | split; [reflexivity | intros _; split; reflexivity]]].
     right. left. destruct (s_dctx c); [|reflexivity]. exfalso. specialize (Hz ltac:(discriminate)). lia.
   - destruct (s_dctx c) as [d|] eqn:Ed.
     + destruct D2 as ((I1 & I2 & I3) & D3 & D4).
@@ -443,11 +456,11 @@ Proof.
         split; [lia|]. split; [lia|]. split; [lia|]. split.
         { unfold table_inv, range_ok. cbn [to_f f_cur f_dictSize f_tab s_tab s_cur s_tt s_dictSize s_dctx].
           split; [split; [lia | split; [lia | split; intros; specialize (I3 h); lia]]|]. exact I. }
-        split; [right; left; reflexivity|]. split; [discriminate | intros; lia].
+        split; [right; left; reflexivity|]. split; [discriminate|]. split; [intros; lia | discriminate].
       * split; [eapply call_ok_dictctx; [exact T | exact Ed]|].
-        split; [lia|]. split; [lia|]. split; [lia|]. split; [exact T|]. split; [left; reflexivity|]. split; [discriminate | reflexivity].
+        split; [lia|]. split; [lia|]. split; [lia|]. split; [exact T|]. split; [left; reflexivity|]. split; [discriminate|]. split; [reflexivity | discriminate].
     + split; [apply call_ok_own; [right; reflexivity | destruct T as (T & _); exact T | exact D1]|].
-      split; [lia|]. split; [lia|]. split; [lia|]. split; [exact T|]. split; [right; left; exact Ed|]. split; [discriminate | reflexivity].
+      split; [lia|]. split; [lia|]. split; [lia|]. split; [exact T|]. split; [right; left; exact Ed|]. split; [discriminate|]. split; [reflexivity | discriminate].
 Qed.
 
 (* ---------------------------------------------------------------- main result for one LZ4_compress_fast_continue *)
@@ -458,6 +471,12 @@ Theorem fast_continue_sound m c source n cap acc :
   let '(cc, dd, small) := continue_call c1 dictEnd source n in
   (* the context after the call, successful or not *)
   table_inv (r_ctx r) /\ tt_inv (r_ctx r) /\ stream_ready (r_ctx r) /\
+  (* which bytes the stream designates as history afterwards *)
+  (if dictEnd =? source
+   then (n = 0 -> r_ctx r = c1) /\
+        (0 < n -> s_dict (r_ctx r) = s_dict c1 /\ s_dictSize (r_ctx r) = s_dictSize c1 + n /\ s_dctx (r_ctx r) = None)
+   else s_dict (r_ctx r) = source /\ s_dictSize (r_ctx r) = n /\
+        (0 < n -> s_dctx (r_ctx r) = None) /\ (n = 0 -> s_dctx (r_ctx r) = s_dctx c1)) /\
   (* a positive result is a factorisation over the virtual index space of the call *)
   (0 < r_ret r ->
    r_ret r = Z.of_nat (length (r_out r)) /\
@@ -468,12 +487,12 @@ Proof.
   intros Hm T V R Hn Hs. cbv zeta.
   pose proof (prelude_tt c source n V) as V1.
   pose proof (prelude_inv c source n T R Hn ltac:(lia)) as P. cbv zeta in P.
-  destruct P as (T1 & R1 & Q1 & X1 & S1 & Z1).
+  destruct P as (T1 & R1 & Q1 & X1 & S1 & Z1 & _ & _ & _).
   rewrite fast_continue_eq, continue_body_eq.
   set (c1 := fst (prelude c source n)) in *. set (dictEnd := snd (prelude c source n)) in *.
   pose proof (continue_call_ok c1 dictEnd source n T1 Q1 Z1 Hs Hn R1) as K.
   destruct (continue_call c1 dictEnd source n) as [[cc dd] small].
-  destruct K as (K1 & K2 & K3 & K4 & K5 & K6 & K7 & K8).
+  destruct K as (K1 & K2 & K3 & K4 & K5 & K6 & K7 & K8 & K9).
   pose proof (clamp_accel_ge acc) as Hacc.
   pose proof (s_generic_ok m cc source n cap LimitedOutput dd small (clamp_accel acc) Hm ltac:(discriminate) Hacc K2 K3
                 ltac:(rewrite M32_val; unfold LZ4_MAX_INPUT_SIZE in *; lia) K1) as G.
@@ -499,12 +518,21 @@ Proof.
       + destruct dd; cbn [s_cur s_dctx s_dictSize s_tt];
           (split; [lia|]; split; [lia|]; split; [lia|]; split; [congruence|]; split; [intros; lia | right; left; reflexivity]). }
   destruct TI as (TI1 & TI2 & TI3 & TI5 & TI4 & TI6).
-  destruct (dictEnd =? source).
-  - split; [exact TI1|]. split; [exact TI6|]. split; [split; [exact TI2 | exact TI5] | exact G3].
+  assert (Hx0 : 0 < n -> dd = CUsingDictCtx \/ s_dctx cc = None) by (intros; destruct K6 as [?|[?|[? _]]]; [left|right|lia]; assumption).
+  destruct (dictEnd =? source) eqn:Ep; cbv iota zeta.
+  - split; [exact TI1|]. split; [exact TI6|]. split; [split; [exact TI2 | exact TI5]|]. split; [|exact G3].
+    destruct (K9 eq_refl) as (-> & ->). split.
+    + intros Hz. apply G1. lia.
+    + intros Hp. destruct (G2 ltac:(lia)) as (tab' & _ & Er). rewrite Er. unfold gen_upd. cbn [s_dict s_dictSize s_dctx].
+      split; [reflexivity|]. split; [reflexivity|]. destruct (Hx0 Hp); [discriminate | assumption].
   - cbn [r_ctx r_ret r_out r_consumed]. rewrite U.
     split; [apply table_inv_with_dict; [exact TI1 | lia | exact TI4]|].
     split; [apply with_dict_tt; exact TI6|].
-    split; [unfold stream_ready, with_dict; cbn [s_cur s_dictSize]; split; [exact TI2 | lia] | exact G3].
+    split; [unfold stream_ready, with_dict; cbn [s_cur s_dictSize]; split; [exact TI2 | lia]|]. split; [|exact G3].
+    unfold with_dict. cbn [s_dict s_dictSize s_dctx]. split; [reflexivity|]. split; [reflexivity|]. split.
+    + intros Hp. destruct (G2 ltac:(lia)) as (tab' & _ & Er). rewrite Er. unfold gen_upd.
+      destruct (Hx0 Hp) as [-> | Hx1]; [reflexivity|]. destruct dd; cbn [s_dctx]; try exact Hx1; reflexivity.
+    + intros Hz. rewrite G1 by lia. rewrite (K8 ltac:(lia)). reflexivity.
 Qed.
 
 (* ================================================================ the other operations *)
